@@ -322,6 +322,12 @@ func (am *AccountingManager) StopSession(sessionID string, terminateCause uint32
 		am.sessionsMu.Unlock()
 		return fmt.Errorf("session not found: %s", sessionID)
 	}
+	if session.StopPending {
+		// Another caller is already stopping this session: a session gets
+		// exactly one Accounting-Stop
+		am.sessionsMu.Unlock()
+		return fmt.Errorf("session stop already in progress: %s", sessionID)
+	}
 
 	// Mark as stop pending for crash recovery
 	session.StopPending = true
